@@ -310,11 +310,17 @@ func followTok(pool *storeh.Pool, n int) int64 {
 	return t
 }
 
+// tornList hands out two torn lengths per append (a random one and entry
+// size - 1), recording them in the spec; on replay it hands the recorded
+// ones out again in the same order.
 func tornList(spec *StartupSpec, replay bool, r *rand.Rand) func(i int, esz int64) []int64 {
-	return func(i int, esz int64) []int64 {
+	next := 0
+	return func(_ int, esz int64) []int64 {
 		if replay {
-			if 2*i+1 < len(spec.Torn) {
-				return spec.Torn[2*i : 2*i+2]
+			if next+1 < len(spec.Torn) {
+				l := spec.Torn[next : next+2]
+				next += 2
+				return l
 			}
 			return nil
 		}
@@ -430,20 +436,7 @@ func startupCases(h *History, seed int64, base, dir string, pool *storeh.Pool, f
 		h.Startup = spec
 	}
 	spec := h.Startup
-	nextTorn := 0
-	torn := func(i int, esz int64) []int64 {
-		if replaying {
-			if nextTorn+1 < len(spec.Torn) {
-				l := spec.Torn[nextTorn : nextTorn+2]
-				nextTorn += 2
-				return l
-			}
-			return nil
-		}
-		l := []int64{1 + r.Int63n(esz-1), esz - 1}
-		spec.Torn = append(spec.Torn, l...)
-		return l
-	}
+	torn := tornList(spec, replaying, r)
 	add := func(sc SCase) {
 		sc.ID = id*1000 + 500 + len(h.SCases)
 		h.SCases = append(h.SCases, sc)
